@@ -1562,13 +1562,19 @@ pub fn c15(cfg: &Cfg, idx: u64, st: &mut Stats) {
                 // sequence and must not influence the bytes
                 ops = gen::with_rejected_noise(&mut rng, front, &ops);
             }
-            let bc = BuildCase {
+            let mut bc = BuildCase {
                 task: TaskSpec { front, registry: geometry, ops, fin: gen::fin(&mut rng) },
                 bufcap: gen::bufcap(&mut rng),
                 prefill: gen::prefill(&mut rng),
                 plan: Plan::clean(),
                 random: Some((gen::benign_shape(&mut rng), rng.next_u64())),
             };
+            if rng.chance(1, 6) {
+                // a re-entrant writer: it builds another FST with the library
+                // inside write() before it answers
+                bc.plan.reenter_every = *rng.pick(&[1usize, 2, 5, 13]);
+                st.count("probe.c15_writer_builds_an_fst_inside_write", 1);
+            }
             tasks.push(MTask { kind: MKind::Sink(bc), same: true });
         }
     }
@@ -1590,6 +1596,15 @@ pub fn c15(cfg: &Cfg, idx: u64, st: &mut Stats) {
                 // What another builder emits must not depend on that either.
                 bc.plan.fault_write = Some((rng.usize_below(60), WStep::Err(gen::err_kind(&mut rng))));
                 st.count("probe.c15_disturber_dies_with_io_error", 1);
+            } else if rng.chance(1, 3) {
+                // ... or is simply dropped by its caller without finish()
+                bc.task.fin = Fin::Abandon;
+                st.count("probe.c15_disturber_dropped_without_finish", 1);
+            } else if rng.chance(1, 2) {
+                // ... or its writer panics inside a write call; the builder
+                // call unwinds and the caller catches the panic
+                bc.plan.fault_write = Some((rng.usize_below(60), WStep::Err(crate::sink::ErrKind::Panic)));
+                st.count("probe.c15_disturber_writer_panics_inside_write", 1);
             }
             tasks.push(MTask { kind: MKind::Sink(bc), same: false });
         }
